@@ -43,6 +43,10 @@ def run_case(cs, real, layouts=(None, None)):
                 b = P.build_index(real['b'])
             r = getattr(a, cs['kind'])(b)
             return {'k': 'labels', 'labels': P.labels_of(r)}
+        if op == 'sf_matmul':
+            return nser(P.build_series(real['a']) @ P.build_frame(real['b'], layouts[1]))
+        if op == 'fs_matmul':
+            return nser(P.build_frame(real['a'], layouts[0]) @ P.build_series(real['b']))
         fn = OPS[cs['fn']]
         if op == 's_binop':
             return nser(fn(P.build_series(real['a']), P.build_series(real['b'])))
@@ -132,6 +136,20 @@ def gen_case(rng):
             real['brep'] = [rng.choice(b) for _ in range(rng.randint(0, 2))]
             cs['b'] = list(b) + real['brep']          # the operand as given (with its repeats) is what the statement sees: it is not 'identical' to a
         return cs, real, (None, None)
+    if rng.random() < 0.08:
+        # the matrix product: the same label set on the paired axes, stored in different orders (nothing about @ says the orders agree)
+        labs_ = [['s', x] for x in rng.sample(list('abcdefg'), rng.randint(1, 4))]
+        la, lb = list(labs_), list(labs_)
+        rng.shuffle(la)
+        rng.shuffle(lb)
+        other = [['s', x] for x in rng.sample(list('pqrs'), rng.randint(1, 3))]
+        ints = lambda n: [['i', rng.choice([1, 2, 3, 10, 100, -1, 0])] for _ in range(n)]
+        s = {'index': la, 'vals': ints(len(la)), 'dt': ['i', 64], 'name': ['none']}
+        if rng.random() < 0.5:
+            f = {'index': lb, 'columns': other, 'cols': [{'dt': ['i', 64], 'vals': ints(len(lb))} for _ in other], 'name': ['none']}
+            return {'op': 'sf_matmul', 'a': abs_nser(s), 'b': abs_nframe(f)}, {'a': s, 'b': f}, (None, C.rand_layout(rng, f))
+        f = {'index': other, 'columns': lb, 'cols': [{'dt': ['i', 64], 'vals': ints(len(other))} for _ in lb], 'name': ['none']}
+        return {'op': 'fs_matmul', 'a': abs_nframe(f), 'b': abs_nser(s)}, {'a': f, 'b': s}, (C.rand_layout(rng, f), None)
     fnname = rng.choice(['add', 'sub', 'mul', 'eq', 'ne', 'lt', 'le', 'gt', 'and', 'or'])
     kind = 'b' if fnname in ('and', 'or') else rng.choice('iif')
     if r < 0.45:
